@@ -1,3 +1,8 @@
 import ScrutModel.Props.C01
 import ScrutModel.Props.C02
 import ScrutModel.Props.C03
+import ScrutModel.Props.C05
+import ScrutModel.Props.C14
+import ScrutModel.Props.C15
+import ScrutModel.Props.C16
+import ScrutModel.Props.C20
